@@ -714,8 +714,22 @@ def gen(c, quick):
 
 # ------------------------------------------------------------------------------------------------
 
+def es_control_form_ok(c):
+    """the published form of the CIF control character: a letter after K L M N P Q R S W, a digit after
+    A B E H, either after the other type letters"""
+    if not re.fullmatch(r"[ABCDEFGHJNPQRSUVWKLM][0-9]{7}[0-9JABCDEFGHI]", c):
+        return True
+    if c[0] in "KLMNPQRSW":
+        return c[8] in "JABCDEFGHI"
+    if c[0] in "ABEH":
+        return c[8] in "0123456789"
+    return True
+
+
 def known_finding(cc, code, go_ok):
     """narrow matchers of findings/C13.json"""
+    if cc == "ES" and go_ok and spec_es(code) and not es_control_form_ok(code):
+        return "C13-es-cif-control-form"
     if cc == "NL" and re.fullmatch(r"[0-9]{9}B[0-9]{2}", code) and go_ok:
         if nl_sum(code) % 11 == 10 and code[8] == "0" and not nl_mod97(code):
             return "C13-nl-remainder-10"
@@ -818,12 +832,14 @@ def run(c):
                 fail("idempotence", cc, raw, "tax identity %s %r: second normalisation expected to change %r" % (cc, raw, c1), {"implementation": g})
             # (4) verdict against the published rule
             want = spec_accepts(cc1, c1)
+            if cc1 == "ES" and want and not es_control_form_ok(c1):
+                want = False     # right control value written in the form the published rule does not allow for this type letter
             if gok != want:
                 fid = known_finding(cc1, c1, gok)
                 fail("verdict", cc, raw, "tax identity %s %r (normalised %r) is %s by the implementation but %s by the published rule"
                      % (cc, raw, c1, "accepted" if gok else "rejected", "valid" if want else "invalid"),
                      {"implementation": g, "normalised": c1, "published_rule_accepts": want, "finding": fid})
-            if stream.endswith("/valid") and not want:
+            if stream.endswith("/valid") and not want and not (cc1 == "ES" and spec_es(c1)):
                 c.report("generator self-check: constructed-valid code %s %r is not valid by the specification" % (cc, raw), {"machinery": raw}, no_input=True)
 
         # samples for the party stream, the evidence file and the vm_compute cross-check
